@@ -3,6 +3,7 @@ import RedisVerif.Driver.C08
 import RedisVerif.Driver.C06
 import RedisVerif.Driver.C06Msg
 import RedisVerif.Driver.C01
+import RedisVerif.Driver.C01Data
 import RedisVerif.Driver.C15
 import RedisVerif.Driver.C04
 import RedisVerif.Driver.C03
@@ -44,7 +45,7 @@ def main (args : List String) : IO UInt32 := do
   | ["C16"] => loop stdin stdout C16.step; return 0
   | ["C06"] => loopState stdin stdout C06Msg.stepAll C06Msg.MState.init; return 0
   | ["C08"] => loopState stdin stdout C08.stepAll C08.DState.init; return 0
-  | ["C01"] | ["C17"] => loopState stdin stdout C01.stepLine RedisVerif.Redis.init; return 0
+  | ["C01"] | ["C17"] => loopState stdin stdout C01Data.stepLine C01Data.DState.init; return 0
   | ["C15"] => loop stdin stdout C15.step; return 0
   | ["C04"] => loop stdin stdout C04.step; return 0
   | ["C03"] => loopState stdin stdout C03.step C03.DState.init; return 0
